@@ -465,6 +465,8 @@ func (vc *FnVC) builtin(st *State, b *ssa.Builtin, c *ssa.CallCommon, instr *ssa
 		return nil
 	case "print", "println":
 		return nil
+	case "StringData":
+		return &Val{T: rt, S: vc.strData(args[0].S)}
 	case "min", "max":
 		if len(args) == 2 && isInteger(args[0].T) {
 			op := "<="
@@ -618,6 +620,18 @@ func (vc *FnVC) copyOp(st *State, c *ssa.CallCommon, args []*Val) *Val {
 		arr, start, start, cnt, at(sx("-", "j", start)), oldArr, arr))
 	vc.set(st, mk.Name, sx("store", m, sx("s.base", dst.S), arr))
 	return &Val{T: tInt, S: cnt}
+}
+
+// strData: the data pointer of a string. Go strings are immutable and the pointer keeps the bytes alive, so two
+// strings with the same data pointer and the same length have the same contents (trusted; strings made with
+// WrapUnsafe over a buffer that is written afterwards would break it).
+func (vc *FnVC) strData(s string) string {
+	if !vc.declSet["gs.data"] {
+		vc.declareFun("gs.data", []string{"Str"}, "Int")
+		vc.fact("(forall ((a Str) (b Str)) (! (=> (and (= (gs.data a) (gs.data b)) (= (gs.len a) (gs.len b))) (= a b)) :pattern ((gs.data a) (gs.data b))))")
+		vc.fact("(forall ((a Str)) (! (>= (gs.data a) 0) :pattern ((gs.data a))))")
+	}
+	return sx("gs.data", s)
 }
 
 // ---------- library models that cannot be written as contracts ----------
